@@ -248,7 +248,16 @@ func (h UnprotectedHeader) MarshalCBOR() ([]byte, error) {
 	if err := validateHeaderParameters(h, false); err != nil {
 		return nil, fmt.Errorf("unprotected header: %w", err)
 	}
-	return encModeWithoutTags.Marshal(map[any]any(h))
+	encoded, err := encModeWithoutTags.Marshal(map[any]any(h))
+	if err != nil {
+		return nil, err
+	}
+	// The unprotected bucket is decoded with tags forbidden: a value that
+	// needs a tag on the wire cannot be carried in it.
+	if err := decModeWithTagsForbidden.Wellformed(encoded); err != nil {
+		return nil, fmt.Errorf("unprotected header: %w", err)
+	}
+	return encoded, nil
 }
 
 // UnmarshalCBOR decodes a CBOR map object into UnprotectedHeader.
